@@ -740,6 +740,13 @@ class CallMixin:
         for n, t in spec.params.items():
             if n in penv:
                 penv[n] = self.coerce_to(st, penv[n], t)
+        # logical parameters of the callee: its contract holds for *every* value of them, so the caller may pick one.
+        # The instance is the caller's variable of the same name (ghost parameter or local), if any.
+        for gname in spec.ghost_params:
+            if gname in st.env:
+                penv[gname] = st.env[gname]
+            else:
+                raise OutOfSubset('call of %s: no instance for its logical parameter %s in the caller' % (fi.qual, gname))
         cs = st.fork()
         cs.env = dict(penv)
         cs.spec = True
